@@ -967,6 +967,18 @@ fn main() {
     let thorough = cx.tier.is_thorough();
     let mut seed_rng = cx.rng("c11-random-strings");
 
+    for (name, cv) in [
+        ("bls12-381-G1", model::bls_g1()),
+        ("bls12-381-G2", model::bls_g2()),
+        ("bn254-G1", model::bn_g1()),
+        ("bn254-G2", model::bn_g2()),
+        ("jubjub", model::jubjub()),
+        ("secp256k1", model::secp256k1()),
+        ("curve25519", model::ed25519()),
+    ] {
+        generic::ladder_self_check_tasks(&mut tasks, cx.seed, name, cv);
+    }
+
     macro_rules! full {
         ($B:ty) => {{
             let al = generic::alphabet::<$B>(&mut cx);
@@ -1013,8 +1025,19 @@ fn main() {
         by_group.entry(g).or_default().push((k, t));
     }
     for g in order {
-        let cases = by_group.remove(&g).unwrap();
-        cx.run_cases(&g, &cases, |t| t());
+        let mut cases = by_group.remove(&g).unwrap();
+        // the quadratic-extension curves cost the model most: start them first (stable order)
+        cases.sort_by_key(|(k, _)| if k.contains("-G2:") { 0 } else { 1 });
+        let timing = std::env::var("C11_TIMING").is_ok();
+        let keyed: Vec<(String, (String, generic::Task))> = cases.into_iter().map(|(k, t)| (k.clone(), (k, t))).collect();
+        cx.run_cases(&g, &keyed, |(k, t)| {
+            let t0 = std::time::Instant::now();
+            let out = t();
+            if timing && t0.elapsed().as_secs_f64() > 0.5 {
+                eprintln!("TIMING {k} {:.2}s evals={}", t0.elapsed().as_secs_f64(), out.evals);
+            }
+            out
+        });
     }
 
     // ---- anti-vacuity
